@@ -63,7 +63,7 @@ def _tri(b: Any) -> TriState:
     return TriState.TRUE if b else TriState.FALSE
 
 
-def _neighbor(las: int, pas: int, la: str, pa: str, rid: str, fams, aps, asn4: bool, nhs, adj_rib_in: bool) -> Neighbor:
+def _neighbor(las: int, pas: int, la: str, pa: str, rid: str, fams, aps, asn4: bool, nhs, adj_rib_in: bool, aigp: bool = False) -> Neighbor:
     s = SessionSettings()
     s.peer_address = IP.from_string(pa)
     s.local_address = IP.from_string(la)
@@ -79,6 +79,8 @@ def _neighbor(las: int, pas: int, la: str, pa: str, rid: str, fams, aps, asn4: b
     cap.asn4 = _tri(asn4)
     cap.add_path = 3 if aps else 0
     cap.nexthop = _tri(bool(nhs))
+    if aigp:  # `capability { aigp enable; }` (RFC 7311: AIGP_SESSION enabled for this eBGP peer)
+        cap.aigp = _tri(True)
     cap.graceful_restart = GracefulRestartConfig.disabled()
     n.capability = cap
     n.adj_rib_in = adj_rib_in
@@ -90,12 +92,12 @@ def _neighbor(las: int, pas: int, la: str, pa: str, rid: str, fams, aps, asn4: b
 class Session:
     """One negotiated session shape, built from two real OPENs sent through the wire codec."""
 
-    def __init__(self, families=ALL_FAMILIES, addpath=(), asn4=True, extnh=(), local_as=65000, peer_as=65001, label=''):
+    def __init__(self, families=ALL_FAMILIES, addpath=(), asn4=True, extnh=(), local_as=65000, peer_as=65001, label='', aigp=False):
         RIB._cache.clear()
         self.families = list(families)
-        self.us = _neighbor(local_as, peer_as, '127.0.0.1', '127.0.0.2', '1.1.1.1', families, addpath, asn4, extnh, True)
+        self.us = _neighbor(local_as, peer_as, '127.0.0.1', '127.0.0.2', '1.1.1.1', families, addpath, asn4, extnh, True, aigp)
         # the peer is a 2-byte speaker when asn4 is off: it does not announce the capability
-        them = _neighbor(peer_as, local_as, '127.0.0.2', '127.0.0.1', '2.2.2.2', families, addpath, asn4, extnh, False)
+        them = _neighbor(peer_as, local_as, '127.0.0.2', '127.0.0.1', '2.2.2.2', families, addpath, asn4, extnh, False, aigp)
         self.neg = Negotiated.make_negotiated(self.us, Direction.IN)
         ours = Open.make_open(Version(4), self.us.session.local_as, self.us.hold_time, self.us.session.router_id, Capabilities().new(self.us, False))
         pneg = Negotiated.make_negotiated(them, Direction.OUT)
@@ -106,6 +108,9 @@ class Session:
         self.label = label
         # what was actually negotiated, read back from the Negotiated object
         self.asn4 = bool(self.neg.asn4)
+        self.aigp = bool(self.neg.aigp)
+        if self.aigp != bool(aigp):
+            raise RuntimeError(f'rig: aigp={self.neg.aigp} negotiated, wanted {aigp}')
         self.addpath = sorted((int(a), int(s)) for a, s in self.families_tuple() if self.neg.addpath.receive(AFI.from_int(a), SAFI.from_int(s)))
         self.extnh = sorted({(int(a), int(s)) for a, s, _ in (self.neg.nexthop or [])}) if self.neg.nexthop else []
         self.msg_size = int(self.neg.msg_size)
@@ -119,10 +124,10 @@ class Session:
     def params(self) -> str:
         """PARAMS words of drv_wire."""
         fam = lambda l: '+'.join(f'{a}.{s}' for a, s in l) or '-'  # noqa: E731
-        return f'{1 if self.asn4 else 0} {fam(self.addpath)} {fam(self.extnh)} {self.msg_size}'
+        return f'{1 if self.asn4 else 0} {fam(self.addpath)} {fam(self.extnh)} {self.msg_size}{"a" if self.aigp else ""}'
 
     def shape(self) -> dict:
-        return {'asn4': self.asn4, 'addpath': self.addpath, 'extnh': self.extnh, 'max': self.msg_size}
+        return {'asn4': self.asn4, 'addpath': self.addpath, 'extnh': self.extnh, 'max': self.msg_size, 'aigp': self.aigp}
 
     # -- the real decode path -----------------------------------------------------------------
 
@@ -330,6 +335,8 @@ def attrs_of_json(a: dict) -> dict[int, str]:
             out[16] = ','.join('%016x' % c['value'] for c in v) or '-'
         elif k == 'large-community':
             out[32] = ','.join(f'{c[0]}.{c[1]}.{c[2]}' for c in v) or '-'
+        elif k == 'aigp':
+            out[26] = '01000b%016x' % (int(v, 0) if isinstance(v, str) else int(v))  # RFC 7311 3: one AIGP TLV (type 1, length 11, 8-octet metric)
         elif k.startswith('attribute-0x'):
             code = int(k.split('-')[1], 16)
             out[code] = (v[2:] if v.startswith('0x') else v) or '-'
